@@ -64,7 +64,8 @@ load()   # at import: module code must not be exec'd under CrossHair's tracing
 
 class Oracle(object):
     """schedule decisions, all fixed up front from solver variables"""
-    def __init__(self, preempts, targets, forced, fires):
+    def __init__(self, preempts, targets, forced, fires, nforced=None):
+        self.nforced = nforced
         self.preempts = preempts
         self.targets = targets
         self.forced = forced
@@ -81,20 +82,56 @@ class Oracle(object):
         return False
 
     # the remaining decisions are resolved lazily - only when the run reaches them - so the solver forks exactly on the
-    # decisions that exist in a schedule (ctx.pick turns the symbolic value into a concrete one, one fork per option)
+    # decisions that exist in a schedule (ctx.pick turns the symbolic value into a concrete one, one fork per option).
+    # The schedule itself runs with CrossHair's tracing switched off (the data is concrete; tracing the generator-heavy
+    # scheduler costs 10x); tracing is resumed only here, where solver variables are read.
     def preempt_target(self, n):
-        t = self.targets[self.pi] if self.pi < len(self.targets) else 0
-        return ctx.pick(t % n, range(n))
+        with _resumed():
+            t = self.targets[self.pi] if self.pi < len(self.targets) else 0
+            return ctx.pick(t % n, range(n))
 
     def forced_choice(self, n):
-        c = self.forced[self.fi] if self.fi < len(self.forced) else 0
-        self.fi += 1
-        return ctx.pick(c % n, range(n))
+        if self.nforced is not None and self.fi >= self.nforced:
+            self.fi += 1
+            return 0                # beyond the bound on solver-chosen forced switches: first runnable task
+        with _resumed():
+            c = self.forced[self.fi] if self.fi < len(self.forced) else 0
+            self.fi += 1
+            return ctx.pick(c % n, range(n))
 
     def timer_fires(self):
-        f = self.fires[self.ti] if self.ti < len(self.fires) else False
-        self.ti += 1
-        return True if f else False
+        with _resumed():
+            f = self.fires[self.ti] if self.ti < len(self.fires) else False
+            self.ti += 1
+            return True if f else False
+
+
+class _Null(object):
+    def __enter__(self):
+        return self
+
+    def __exit__(self, *a):
+        return False
+
+
+def _resumed():
+    try:
+        from crosshair.tracers import ResumedTracing, is_tracing
+        if ctx.MODE in ('check', 'witness') and not is_tracing():
+            return ResumedTracing()
+    except Exception:
+        pass
+    return _Null()
+
+
+def _untraced():
+    try:
+        from crosshair.tracers import NoTracing, is_tracing
+        if is_tracing():
+            return NoTracing()
+    except Exception:
+        pass
+    return _Null()
 
 
 def make_wrapped(fail_at):
@@ -233,8 +270,12 @@ def schedules(p1: int, p2: int, t1: int, t2: int, forced: List[int], fires: List
         pre, tg = [p1, p2], [t1, t2]
     else:
         pre, tg = [p1], [t1]
-    fail_at = ctx.pick(fail_at, [x for x in range(-1, B('FAILMAX') + 1) if x != 0])
-    ok, why = check(ctx.S('producers'), ctx.S('writes'), fail_at, Oracle(pre, tg, forced, fires))
+    fmax = ctx.S('failmax', B('FAILMAX'))
+    if fail_at > fmax:
+        return ctx.done(True)
+    fail_at = ctx.pick(fail_at, [x for x in range(-1, fmax + 1) if x != 0])
+    with _untraced():
+        ok, why = check(ctx.S('producers'), ctx.S('writes'), fail_at, Oracle(pre, tg, forced, fires, ctx.S('nforced')))
     ctx.mark('schedule')
     if fail_at > 0:
         ctx.mark('failing-operation')
@@ -248,7 +289,7 @@ def replay_schedules(args, shard, bounds):
     npre = shard['preemptions']
     pre = [args['p1']] + ([args['p2']] if npre >= 2 else [])
     tg = [args['t1']] + ([args['t2']] if npre >= 2 else [])
-    ok, why = check(shard['producers'], shard['writes'], args['fail_at'], Oracle(pre, tg, list(args['forced']), list(args['fires'])))
+    ok, why = check(shard['producers'], shard['writes'], args['fail_at'], Oracle(pre, tg, list(args['forced']), list(args['fires']), shard.get('nforced')))
     return (not ok), why
 
 
@@ -257,18 +298,21 @@ def _buckets(steps, k):
     return [[i * w, min(steps, (i + 1) * w)] for i in range(k)]
 
 
-_QB = {'STEPS': 160, 'FORCED': 4, 'FIRES': 2, 'FAILMAX': 3}
-_TB = {'STEPS': 260, 'FORCED': 4, 'FIRES': 2, 'FAILMAX': 6}
+_QB = {'STEPS': 200, 'FORCED': 4, 'FIRES': 2, 'FAILMAX': 4}
+_TB = {'STEPS': 200, 'FORCED': 5, 'FIRES': 3, 'FAILMAX': 6}
 CONDITIONS = [
     {'fn': 'schedules', 'nontrivial': 'schedule',
      'what': 'every schedule with <= P preemptions (statement / attribute-load granularity), every forced-switch choice, '
              'timer pattern and failing-operation index for small workloads; sharded by (workload, first-preemption bucket)',
      'tiers': {'quick': {'bounds': _QB, 'timeout': 900,
-                         'shards': [{'producers': 1, 'writes': 1, 'preemptions': 1, 'bucket': b} for b in _buckets(160, 8)] +
-                                   [{'producers': 2, 'writes': 1, 'preemptions': 1, 'bucket': b} for b in _buckets(160, 8)],
-                         'witness_shard': {'producers': 1, 'writes': 1, 'preemptions': 1, 'bucket': [0, 160]}},
+                         'shards': [{'producers': 1, 'writes': 1, 'preemptions': 1, 'bucket': b} for b in _buckets(120, 4)] +
+                                   [{'producers': 1, 'writes': 2, 'preemptions': 1, 'bucket': b} for b in _buckets(140, 4)] +
+                                   [{'producers': 2, 'writes': 1, 'preemptions': 1, 'bucket': b, 'nforced': 2, 'failmax': 2} for b in _buckets(180, 12)],
+                         'witness_shard': {'producers': 1, 'writes': 1, 'preemptions': 1, 'bucket': [0, 200]}},
                'thorough': {'bounds': _TB, 'timeout': 20000,
-                            'shards': [{'producers': pr, 'writes': w, 'preemptions': 2, 'bucket': b}
-                                       for pr, w in ((1, 1), (1, 2), (2, 1)) for b in _buckets(260, 26)],
-                            'witness_shard': {'producers': 1, 'writes': 1, 'preemptions': 1, 'bucket': [0, 260]}}}},
+                            'shards': [{'producers': 1, 'writes': 1, 'preemptions': 2, 'bucket': b} for b in _buckets(120, 24)] +
+                                      [{'producers': 2, 'writes': 1, 'preemptions': 1, 'bucket': b} for b in _buckets(180, 12)] +
+                                      [{'producers': 2, 'writes': 2, 'preemptions': 1, 'bucket': b} for b in _buckets(200, 12)] +
+                                      [{'producers': 3, 'writes': 1, 'preemptions': 1, 'bucket': b} for b in _buckets(200, 12)],
+                            'witness_shard': {'producers': 1, 'writes': 1, 'preemptions': 1, 'bucket': [0, 200]}}}},
 ]
